@@ -309,3 +309,126 @@ def hmac_l2_groups(prefix, props, cfg="C64", tier="quick"):
                                           "HTAG_ABSORB=" + ta, "VERIF_ABSTRACT_P", "VERIF_L1_SUMMARY", "VERIF_KEYLEN=%d" % kl] + idefs,
                                     drop_unused=True, unwind=66, timeout=900, expect_classes=["assertion"]))
     return gs
+
+X64 = "src/core/ascon-sliced64.c"
+CLEAN = "src/core/ascon-clean.c"
+FREE_TABLE = [
+    # function, type, zero expression, sources
+    ("ascon_free", "ascon_state_t", "ZB(state,40)", []),
+    ("ascon128_aead_free", "ascon128_state_t", "ZB(state,sizeof(ascon128_state_t))", ["src/aead/ascon-aead-inc-128.c"]),
+    ("ascon128a_aead_free", "ascon128a_state_t", "ZB(state,sizeof(ascon128a_state_t))", ["src/aead/ascon-aead-inc-128a.c"]),
+    ("ascon80pq_aead_free", "ascon80pq_state_t", "ZB(state,sizeof(ascon80pq_state_t))", ["src/aead/ascon-aead-inc-80pq.c"]),
+    ("ascon_xof_free", "ascon_xof_state_t", "ZX(state)", ["src/hash/ascon-xof.c"]),
+    ("ascon_xofa_free", "ascon_xofa_state_t", "ZX(state)", ["src/hash/ascon-xofa.c"]),
+    ("ascon_hash_free", "ascon_hash_state_t", "ZX(&state->xof)", ["src/hash/ascon-hash.c", "src/hash/ascon-xof.c"]),
+    ("ascon_hasha_free", "ascon_hasha_state_t", "ZX(&state->xof)", ["src/hash/ascon-hasha.c", "src/hash/ascon-xofa.c"]),
+    ("ascon_prf_free", "ascon_prf_state_t", "ZX(state)", ["src/mac/ascon-prf.c"]),
+    ("ascon_hmac_free", "ascon_hmac_state_t", "ZX(&state->hash.xof)", ["src/mac/ascon-hmac.c", "src/hash/ascon-hash.c", "src/hash/ascon-xof.c"]),
+    ("ascon_hmaca_free", "ascon_hmaca_state_t", "ZX(&state->hash.xof)", ["src/mac/ascon-hmaca.c", "src/hash/ascon-hasha.c", "src/hash/ascon-xofa.c"]),
+    ("ascon_kmac_free", "ascon_kmac_state_t", "ZX(&state->xof)", ["src/mac/ascon-kmac.c", "src/hash/ascon-xof.c"]),
+    ("ascon_kmaca_free", "ascon_kmaca_state_t", "ZX(&state->xof)", ["src/mac/ascon-kmaca.c", "src/hash/ascon-xofa.c"]),
+    ("ascon_kdf_free", "ascon_kdf_state_t", "ZX(&state->state)", ["src/kdf/ascon-kdf.c", "src/hash/ascon-xof.c"]),
+    ("ascon_kdfa_free", "ascon_kdfa_state_t", "ZX(&state->state)", ["src/kdf/ascon-kdfa.c", "src/hash/ascon-xofa.c"]),
+    ("ascon_hkdf_free", "ascon_hkdf_state_t", "ZB(state,sizeof(ascon_hkdf_state_t))",
+     ["src/kdf/ascon-hkdf.c", "src/mac/ascon-hmac.c", "src/hash/ascon-hash.c", "src/hash/ascon-xof.c"]),
+    ("ascon_hkdfa_free", "ascon_hkdfa_state_t", "ZB(state,sizeof(ascon_hkdfa_state_t))",
+     ["src/kdf/ascon-hkdfa.c", "src/mac/ascon-hmaca.c", "src/hash/ascon-hasha.c", "src/hash/ascon-xofa.c"]),
+    ("ascon_random_free", "ascon_random_state_t", "(ZX(&state->xof) && state->counter == 0)",
+     ["src/random/ascon-prng.c", "src/hash/ascon-xof.c"]),
+    ("ascon128a_isap_aead_free", "ascon128a_isap_aead_key_t", "(ZB(&state->ke,40) && ZB(&state->ka,40))", ["src/isap/ascon-isap-128a.c", "src/aead/ascon-aead-common.c"]),
+    ("ascon128_isap_aead_free", "ascon128_isap_aead_key_t", "(ZB(&state->ke,40) && ZB(&state->ka,40))", ["src/isap/ascon-isap-128.c", "src/aead/ascon-aead-common.c"]),
+    ("ascon80pq_isap_aead_free", "ascon80pq_isap_aead_key_t", "(ZB(&state->ke,40) && ZB(&state->ka,40))", ["src/isap/ascon-isap-80pq.c", "src/aead/ascon-aead-common.c"]),
+    ("ascon_masked_key_128_free", "ascon_masked_key_128_t", "ZB(state,sizeof(ascon_masked_key_128_t))", ["src/masking/ascon-masked-key.c"]),
+    ("ascon_masked_key_160_free", "ascon_masked_key_160_t", "ZB(state,sizeof(ascon_masked_key_160_t))", ["src/masking/ascon-masked-key.c"]),
+    ("ascon_masked_state_free", "ascon_masked_state_t", "ZB(state,sizeof(ascon_masked_state_t))", ["src/masking/ascon-masked-state.c"]),
+]
+
+
+def free_groups(prefix, props, cfg="C64", tier="quick"):
+    gs = []
+    for f, T, expr, srcs in FREE_TABLE:
+        masked = "masked" in f
+        gs.append(Group("%s.%s.%s" % (prefix, f, cfg), props, "harness/h_free.c", "h_free",
+                        srcs + [BACKEND_SRC[cfg], CLEAN], cfg=cfg, enforce=f,
+                        defs=["VERIF_FN=" + f, "VERIF_T=" + T, "VERIF_ZERO_EXPR=" + expr] + (["VERIF_FREE_MASKED"] if masked else []),
+                        contracts=["contracts/c_free.h"], drop_unused=True, unwind=260, timeout=900,
+                        expect_classes=["postcondition", "assigns"]))
+    n = 64 if tier == "quick" else 1024
+    gs.append(Group("%s.ascon_clean.fallback%d" % (prefix, n), props, "harness/h_free.c", "h_free", [CLEAN], cfg=cfg,
+                    enforce="ascon_clean", defs=["VERIF_FREE_CLEAN", "VERIF_CLEAN_MAX=%d" % n], contracts=["contracts/c_free.h"],
+                    unwind=n + 2, kind="bounded", timeout=1800,
+                    bound="size <= %d, portable volatile-pointer fallback of ascon_clean (a write loop through a moving pointer: no loop contract possible)" % n,
+                    expect_classes=["postcondition", "assigns"]))
+    return gs
+
+MW_SRC = {"C64": "src/masking/ascon-masked-word-c64.c", "C32": "src/masking/ascon-masked-word-c32.c",
+          "DX": "src/masking/ascon-masked-word-direct.c", "GEN": "src/masking/ascon-masked-word-direct.c"}
+
+
+def masked_word_groups(prefix, props, cfg="C64", max_shares=4):
+    gs = []
+    ops = ["zero", "load", "load_partial", "load_32", "store", "store_partial", "randomize", "xor", "replace"]
+    for ns in range(2, max_shares + 1):
+        variants = [(op, [], "") for op in ops]
+        variants.append(("randomize", ["VERIF_ALIAS"], ".inplace"))
+        for ms in range(2, max_shares + 1):
+            if ms != ns:
+                variants.append(("from", ["MS=%d" % ms], ".x%d" % ms))
+                variants.append(("from", ["MS=%d" % ms, "VERIF_ALIAS"], ".x%d.inplace" % ms))
+        if ns == 2:
+            variants += [("pad", [], ""), ("separator", [], "")]
+        for op, extra, suffix in variants:
+            gs.append(Group("%s.word.x%d_%s%s.%s.max%d" % (prefix, ns, op, suffix, cfg, max_shares), props,
+                            "harness/h_masked_word.c", "h_masked_word", [MW_SRC[cfg]], cfg=cfg,
+                            defs=["NS=%d" % ns, "OP_" + op, "ASCON_MASKED_MAX_SHARES=%d" % max_shares] + extra,
+                            functions=["ascon_masked_word_x%d_%s" % (ns, op if op != "from" else "from_x%s" % extra[0][3:])],
+                            unwind=10, timeout=600, must_fail=(["MUSTFAIL"] if op == "randomize" else []),
+                            expect_classes=["assertion"]))
+    return gs
+
+
+def masked_key_groups(prefix, props, cfg="C64", key_shares=(4, 3, 2)):
+    gs = []
+    for bits in (128, 160):
+        for ks in key_shares:
+            for op in ("roundtrip", "randomize"):
+                gs.append(Group("%s.key%d.%s.%s.shares%d" % (prefix, bits, op, cfg, ks), props, "harness/h_masked_key.c", "h_masked_key",
+                                ["src/masking/ascon-masked-key.c", MW_SRC[cfg], CLEAN], cfg=cfg,
+                                defs=["KEYBITS=%d" % bits, "OP_" + op, "ASCON_MASKED_KEY_SHARES=%d" % ks, "ASCON_MASKED_MAX_SHARES=4"] +
+                                     (["ASCON_MASKED_DATA_SHARES=2"] if ks >= 2 else []),
+                                functions=["ascon_masked_key_%d_%s" % (bits, "init+extract" if op == "roundtrip" else "randomize_with_trng")],
+                                unwind=24, timeout=600, must_fail=(["MUSTFAIL"] if op == "randomize" else []), drop_unused=True,
+                                expect_classes=["assertion"]))
+    return gs
+
+
+def masked_state_groups(prefix, props, cfg="C64"):
+    gs = []
+    for ns in (2, 3, 4):
+        variants = [("randomize", [], ""), ("from_x1", [], ""), ("to_x1", [], "")]
+        for ms in (2, 3, 4):
+            variants.append(("from", ["MS=%d" % ms], ".x%d" % ms))
+            variants.append(("from", ["MS=%d" % ms, "VERIF_ALIAS"], ".x%d.inplace" % ms))
+        for op, extra, suffix in variants:
+            gs.append(Group("%s.state.x%d_%s%s.%s" % (prefix, ns, op, suffix, cfg), props, "harness/h_masked_state.c", "h_masked_state",
+                            ["src/masking/ascon-masked-state.c", MW_SRC[cfg], BACKEND_SRC[cfg], CLEAN], cfg=cfg,
+                            defs=["NS=%d" % ns, "OP_" + op, "ASCON_MASKED_MAX_SHARES=4"] + extra,
+                            functions=["ascon_x%d_%s" % (ns, "copy_" + op if op != "randomize" else op)],
+                            unwind=42, timeout=600, drop_unused=True, expect_classes=["assertion"]))
+    return gs
+
+
+def masked_permute_groups(prefix, props, cfg="C64", shares=(2, 3, 4)):
+    gs = []
+    for ns in shares:
+        f = "ascon_x%d_permute" % ns
+        for stg in ("A", "B"):
+            gs.append(Group("%s.permute.x%d.%s.stage%s" % (prefix, ns, cfg, stg), props, "harness/h_masked_permute.c", "h_masked_permute",
+                            ["src/masking/ascon-x%d-c64.c" % ns], cfg=cfg, enforce=f if stg == "B" else None,
+                            defs=["NS=%d" % ns, "VERIF_FN=" + f, "VERIF_STAGE_" + stg, "VERIF_LC_permute_x%d_c64" % ns,
+                                  "ASCON_MASKED_MAX_SHARES=4"],
+                            contracts=["contracts/c_masked_permute.h"] if stg == "B" else [], loop_contracts=True,
+                            unwind_pre=["ascon_x%d_permute.%d:2" % (ns, i) for i in range(5)] + ["h_masked_permute.0:6", "h_masked_permute.1:5"],
+                            functions=[f], timeout=1800,
+                            expect_classes=["loop_invariant_step", "loop_invariant_base"] + (["postcondition", "assigns"] if stg == "B" else ["assertion"])))
+    return gs
